@@ -93,7 +93,7 @@ impl<'a> Tokenizer<'a> {
         loop {
             match tmp.peek_one() {
                 Some((_, ch)) => {
-                    if is_whitespace_char(ch) || is_delim_char(ch) {
+                    if is_word_end_char(ch) {
                         break;
                     }
                     tmp.next_one();
@@ -108,7 +108,7 @@ impl<'a> Tokenizer<'a> {
         loop {
             match self.peek_one() {
                 Some((_, ch)) => {
-                    if is_whitespace_char(ch) || is_delim_char(ch) {
+                    if is_word_end_char(ch) {
                         break;
                     }
                     self.next_one();
@@ -283,6 +283,11 @@ fn is_whitespace_char(ch: char) -> bool {
 
 fn is_delim_char(ch: char) -> bool {
     return ch == '(' || ch == ')' || ch == '[' || ch == ']' || ch == '{' || ch == '}';
+}
+
+// a word operator ends where whitespace, a bracket or a separator begins (`[a in, b]`, `x endWith;`)
+fn is_word_end_char(ch: char) -> bool {
+    return is_whitespace_char(ch) || is_delim_char(ch) || ch == ',' || ch == ';';
 }
 
 fn is_param_char(ch: char) -> bool {
